@@ -312,7 +312,12 @@ def _check_model(sh, case):
     kk = np.linspace(-0.6 * hw, 0.6 * hw, NSTRIKES)
     kk = kk + float(case.get("shift", 0.0)) * (kk[1] - kk[0])  # thorough tier: a second lattice, half a step to the right
     K = S0 * np.exp(kk)
-    B = Budget(model, fam, params, T, a, b, n)
+    # the FFT pricer's own constants enter its budget (Carr-Madan damping, spacing, size)
+    fp = _call_lib(sh, f"{PID}:call:FFTPricer", icls, FFTPricer, model)
+    f_alpha = float(getattr(fp, "alpha", 1.5)) if fp is not None else 1.5
+    f_eta = float(getattr(fp, "eta", 0.25)) if fp is not None else 0.25
+    f_n = int(getattr(fp, "N", 2 ** 18)) if fp is not None else 2 ** 18
+    B = Budget(model, fam, params, T, a, b, n, fft_alpha=f_alpha, fft_eta=f_eta, fft_n=f_n)
     rep = _Rep(sh, icls, ctx)
     scaleK = np.maximum(K, S0)
     tau = B.tau_cos(K)
@@ -320,7 +325,7 @@ def _check_model(sh, case):
     tau_f = B.tau_fft(K)
     inb = tau <= TOL_REL * scaleK
     inb_d = tau_d <= TOL_REL
-    fft_range = np.abs(kk) <= math.pi / 0.25 - 1.0
+    fft_range = np.abs(kk) <= math.pi / f_eta - 1.0  # the FFT's log-strike grid is log(S0) +- pi/eta
     inb_f = (tau_f <= TOL_REL * scaleK) & fft_range
     sh.count("strikes", NSTRIKES)
     sh.count(f"lattice:{fam}", NSTRIKES)
@@ -423,7 +428,6 @@ def _check_model(sh, case):
                       1e-11 * (1.0 + np.abs(flog[idx])), s_pts[idx])
 
     # ------------------------------------------------------------------ FFT
-    fp = _call_lib(sh, f"{PID}:call:FFTPricer", icls, FFTPricer, model)
     fcall = fput = None
     if fp is not None:
         fcall = _call_lib(sh, f"{PID}:call:FFTPricer.call", icls, fp.call, K, T)
